@@ -241,8 +241,16 @@ def _production_case(args):
     ev = gen.make_events(n, seed=3, special=False,
                          feats=["deform", "area_um", "bright_avg", "time",
                                 "frame", "index_online"])
-    nanpos = {"none": [], "some": [0, 3], "first3": [0, 1, 2]}[nanvar]
+    nanpos = {"none": [], "some": [0, 3], "first3": [0, 1, 2],
+              "inf": [4], "infs": [1]}[nanvar]
     ev["deform"][nanpos] = np.nan
+    if nanvar == "inf":
+        # an infinite value in the first part (mean = inf)
+        ev["deform"][1] = np.inf
+    elif nanvar == "infs":
+        # both infinities, in different parts (mean = NaN, min/max = -/+inf)
+        ev["deform"][0] = -np.inf
+        ev["deform"][5] = np.inf
     src = d / "src.rtdc"
     gen.write_rtdc(src, ev, parts=[3, 3])
     if not stored:
@@ -419,7 +427,7 @@ def run(ctx):
              "join2", "join3", "hierarchy", "hierarchy-nofilter",
              "hierarchy-dict", "basin", "basin-mapped"]
     pitems = [(s, st, nv, scratch) for s in steps for st in (True, False)
-              for nv in ("none", "some", "first3")]
+              for nv in ("none", "some", "first3", "inf", "infs")]
     for vs in par.pmap(_production_case, pitems):
         viols.extend(vs)
     cov = {
@@ -430,7 +438,7 @@ def run(ctx):
                 "one writer or re-opened per call) x all 2^N NaN placements; "
                 "non-trivial = NaNs unevenly distributed over the parts; "
                 "plus int/single/replace and 12 production steps x stored/"
-                "stripped summaries x 3 NaN variants",
+                "stripped summaries x 5 NaN / inf variants",
         "compositions": len(comps), "production_cases": len(pitems),
         "samples": [{"comp": list(items[0][0]), "nan": [0]},
                     {"comp": list(items[-1][0]), "reopen": True},
